@@ -456,9 +456,9 @@ func (e *Expression) getFieldForCollection(root proto.Message, collection system
 				if e.unwrapOneof(value.Message().Interface()) == msg {
 					return field, -1, true
 				}
-			} else {
-				return nil, -1, false
 			}
+			// A populated scalar field (the `value` of a primitive) cannot hold the
+			// element; keep looking at the remaining fields (id, extension).
 		}
 	}
 	return nil, -1, false
